@@ -4,6 +4,7 @@ from props._keys_common import (P, N, G, B58, pmul, sec1, pub_of, sha256d, b58en
 
 ID = "C07"
 LEVEL = "proof"
+EXTRA_TARGETS = ["Proofs/ConstsTie.vo"]   # constants regenerated from the Rust source
 RULE = ("private keys {1, 2, n-1, n-2, (n-1)/2, random, leading-zero} x both compression flags through to_wif/from_wif/to_pub/address "
         "(prefixes 00, 6f, random); WIF strings with every payload length 0..40 under a valid checksum, wrong version byte, suffix "
         "byte other than 01, key 0 / n / n+1 / 2^256-1, corrupted checksum bytes, single-character substitutions (sampled in quick, "
